@@ -107,6 +107,7 @@ func (s *lsession) exec(op string) (rep string) {
 			// once the discipline has taken what was there (so it is inside the portion, past
 			// its clock reading) the element is withheld for `lateBy` more
 			var dur time.Duration
+			callStart := time.Now()
 			go func() { dur, stop = s.stp.Transfer(); close(fin) }()
 			for deadline := time.Now().Add(5 * time.Second); len(s.in) > 0 && time.Now().Before(deadline); {
 				time.Sleep(50 * time.Microsecond)
@@ -115,6 +116,9 @@ func (s *lsession) exec(op string) (rep string) {
 			s.in <- lateV
 			s.fed = append(s.fed, lateV)
 			defer func() {
+				if el := time.Since(callStart); rep != "hang" && dur > el+time.Millisecond {
+					s.fail("C04 transfer() reports %v for a portion that took at most %v: the pause that follows is shortened (or skipped) and the rate exceeded", dur, el)
+				}
 				if rep != "hang" && dur < lateBy {
 					s.fail("C12 transfer() reports %v for a portion whose last element arrived more than %v after the portion had started: the pause that follows, Interval - %v, makes the portion longer than Interval although nothing else held it up", dur, lateBy, dur)
 				}
@@ -183,6 +187,48 @@ func (s *lsession) exec(op string) (rep string) {
 	return "bad-op"
 }
 
+// bigPortion: a portion that takes a measurable time although nothing holds it up - a large
+// Quantity, every element waiting in the input buffer, room for all of them in the output
+// buffer.  What transfer() reports is what delay() subtracts from Interval: if it reports much
+// less than the portion took, every cycle lasts Interval plus the unreported part and N elements
+// available up-front take noticeably longer than ceil(N/Quantity) Intervals (C12).  (The upper
+// side - reporting more than the portion took - is the C04 monitor of `transferlate`.)
+func bigPortion(w *px.Writer, q uint64) {
+	in := make(chan int, q)
+	stp, err := limit.VerifNewStepper(limit.Opts[int]{Input: in, Limit: limit.Rate{Interval: time.Hour, Quantity: q}})
+	line := fmt.Sprintf("note bigportion %d", q)
+	if err != nil {
+		w.Case("limit", true, line, "ok")
+		return
+	}
+	out := stp.Discipline().Output()
+	violations, measured := 0, 0
+	var worstDur, worstEl time.Duration
+	for attempt := 0; attempt < 6 && measured < 3; attempt++ {
+		for i := 0; i < int(q); i++ {
+			in <- i
+		}
+		begin := time.Now()
+		dur, _ := stp.Transfer()
+		el := time.Since(begin)
+		for len(out) > 0 {
+			<-out
+		}
+		if el < 3*time.Millisecond {
+			continue // too fast a machine for this quantity to tell anything
+		}
+		measured++
+		if dur < el/2 {
+			violations++
+			worstDur, worstEl = dur, el
+		}
+	}
+	if measured == 3 && violations == 3 {
+		w.Fail("C12 transfer() reports %v for a portion of %d elements that took %v with nothing holding it up (all elements waiting in the input buffer, room for all of them in the output buffer), three times out of three: the pause that follows, Interval - %v, makes every cycle longer than Interval and the discipline throttles below the configured rate [replay: note bigportion %d]", worstDur, q, worstEl, worstDur, q)
+	}
+	w.Case("limit", true, line, "ok")
+}
+
 func main() {
 	tier := flag.String("tier", "quick", "")
 	out := flag.String("out", "", "")
@@ -233,6 +279,10 @@ func main() {
 		if *tier == "thorough" {
 			count = 6000
 		}
+	}
+	bigPortion(w, 400000)
+	if *tier == "thorough" {
+		bigPortion(w, 1500000)
 	}
 	next := 0
 	for i := 0; i < count; i++ {
